@@ -273,6 +273,7 @@ var timestamp = "2006-01-02T15:04:05Z"
 var alphabet = []string{
 	"s", "e", "?", "/", "<", ">", `"`, "@", "[", "]", "^", ":", ",", ";", "(", ")", "1", " ", "\n", `\`, "_", "#",
 	"select", "before", "filter", `"@[`, `"^^type:`, "int64", timestamp,
+	"\ufffd", "\xff", // the replacement character (valid text) and a byte that is not UTF-8: neither is the end of the input
 }
 
 var capacities = []int{0, 1, 2, 7}
@@ -440,7 +441,7 @@ type printedCase struct {
 var printedContexts = []string{"%s", "{ %s }", "%s.", "%s;", "%s,", "(%s)", " %s\n",
 	"/t<\u212a> %s", "/t<\u0130\u0130> %s ;", "\"\u023a\u023a\u023a\u023a\u023a\u023a\"@[] %s"}
 
-var idAlphabet = []string{"a", " ", `\`, "<", ">", `"`, "@", "[", "]", "^", ":", ",", "/", "?", ";", "_", "(", ".", "é", "\u212a", "\u0130"}
+var idAlphabet = []string{"a", " ", `\`, "<", ">", `"`, "@", "[", "]", "^", ":", ",", "/", "?", ";", "_", "(", ".", "é", "\u212a", "\u0130", "\ufffd", "\xff"}
 
 var (
 	t1 = time.Date(2006, 1, 2, 15, 4, 5, 999999999, time.UTC)
